@@ -21,16 +21,17 @@ def inputs(tier):
     restrs = [
         ("T1", "only normal..tutorial1\n"), ("T12", "only normal\nonly tutorial1,tutorial2\n"), ("T3", "only normal..tutorial3\n"),
         ("GUI", "only leaves..tutorial_gui\n"), ("GET", "only leaves..tutorial_get\n"), ("FIN", "only leaves..tutorial_finale\n"),
-        ("MIN", "only minimal\n"), ("NORMAL", "only normal\n"),
+        ("MIN", "only minimal\n"), ("NORMAL", "only normal\n"), ("GG", "only leaves\nonly tutorial_gui,tutorial_get\n"),
+        ("MIXED", "only normal..tutorial_gui,leaves..tutorial_get.explicit_noop\n"), ("MIXED2", "only normal..tutorial_gui,leaves..tutorial_get.implicit_both\n"),
     ]
     if not q:
-        restrs += [("LEAVES", "only leaves\n"), ("GG", "only leaves\nonly tutorial_gui,tutorial_get\n"), ("T13", "only normal\nonly tutorial1,tutorial3\n"),
+        restrs += [("LEAVES", "only leaves\n"), ("T13", "only normal\nonly tutorial1,tutorial3\n"),
                    ("REMOTE", "only leaves..tutorial3.remote\n"), ("NOOPCHAIN", "only leaves..tutorial_gui.client_noop,leaves..tutorial_get.explicit_noop\n")]
     vmsets = [("default", DEFAULT_VMS), ("any-vm1-vm2", {"vm1": "", "vm2": "", "vm3": "only Ubuntu\n"}),
               ("fedora-win7", {"vm1": "only Fedora\n", "vm2": "only Win7\n", "vm3": "only Ubuntu\n"})]
     if not q:
         vmsets += [("any", {"vm1": "", "vm2": "", "vm3": ""}), ("fedora-win10-kali", {"vm1": "only Fedora\n", "vm2": "only Win10\n", "vm3": "only Kali\n"})]
-    netsets = ["net1", "net1 net2", "net1 net3 net5", "cluster1.net6 cluster2.net7", "net0"]
+    netsets = ["net1", "net1 net2", "net1 net3 net5", "cluster1.net6 cluster2.net7", "net0", "net5 net1"]
     if not q:
         netsets += ["net3", "net1 net2 net3", "cluster1.net6 cluster1.net7 cluster2.net6", "net2 net4"]
     out = []
@@ -39,8 +40,10 @@ def inputs(tier):
             for nets in netsets:
                 if q:
                     # quick: a covering selection, not the full product
-                    heavy = rn in ("NORMAL", "FIN", "GET")
-                    if vn != "default" and nets not in ("net1", "net1 net3 net5"):
+                    heavy = rn in ("NORMAL", "FIN", "GET", "GG", "MIXED", "MIXED2")
+                    if vn != "default" and nets not in ("net1", "net1 net3 net5", "net5 net1"):
+                        continue
+                    if nets == "net5 net1" and (vn != "any-vm1-vm2" or rn not in ("T1", "T3", "T12")):
                         continue
                     if heavy and (vn != "default" or nets not in ("net1", "net1 net2")):
                         continue
@@ -194,6 +197,14 @@ def wellformed(facts):
                 errs.append(("parent-worker", f"{n['name']} ({n['nets']}) depends on {p['name']} of another worker ({p['nets']})"))
     for name in facts["clone_sources_runnable"]:
         errs.append(("clone-runnable", f"clone source {name} is runnable"))
+    # a test that serves as setup of another test must not exist a second time for the same worker under another test-set name
+    groups = collections.defaultdict(list)
+    for n in nodes:
+        if not n["flat"] and not n["shared_root"]:
+            groups[(n["nets"], strip_set(n["name"]))].append(n)
+    for (w, nm), members in groups.items():
+        if len(members) > 1 and any(any(not by_name.get(c, {}).get("flat", True) for c in m["cleanup"]) for m in members):
+            errs.append(("duplicate-test", f"{nm} exists {len(members)} times for worker {w} ({[m['name'].split('.vms.')[0] for m in members]}) although it serves as setup of another test"))
     return errs
 
 
@@ -353,7 +364,7 @@ def copies(facts):
     by_name = {n["name"]: n for n in facts["nodes"]}
     per_worker = collections.defaultdict(dict)
     for n in nodes:
-        per_worker[n["nets"]][worker_invariant(n["name"], n["nets"])] = n
+        per_worker[n["nets"]][strip_set(worker_invariant(n["name"], n["nets"]))] = n
     workers = sorted(per_worker)
     restrs = {w: facts["workers"].get(w, {}).get("restrs", {}) for w in workers}
 
@@ -371,8 +382,8 @@ def copies(facts):
             for wi, n in per_worker[a].items():
                 if wi in per_worker[b]:
                     m = per_worker[b][wi]
-                    ea = sorted((worker_invariant(p, a), tuple(objs)) for p, objs in n["setup"].items() if not by_name.get(p, {}).get("flat") and not by_name.get(p, {}).get("shared_root"))
-                    eb = sorted((worker_invariant(p, b), tuple(objs)) for p, objs in m["setup"].items() if not by_name.get(p, {}).get("flat") and not by_name.get(p, {}).get("shared_root"))
+                    ea = sorted((strip_set(worker_invariant(p, a)), tuple(objs)) for p, objs in n["setup"].items() if not by_name.get(p, {}).get("flat") and not by_name.get(p, {}).get("shared_root"))
+                    eb = sorted((strip_set(worker_invariant(p, b)), tuple(objs)) for p, objs in m["setup"].items() if not by_name.get(p, {}).get("flat") and not by_name.get(p, {}).get("shared_root"))
                     if ea != eb and not (n["clone_source"] or m["clone_source"]):
                         errs.append(("edges-differ", f"{wi}: dependencies differ between workers {a} and {b}: {ea[:2]} vs {eb[:2]}"))
                     if m["name"] not in n["bridged"]:
